@@ -98,7 +98,15 @@ pub fn input_set(seed: u64, k: u64, n: usize, max_plain: usize) -> Vec<Input> {
             Some(s) => s,
             None => continue,
         };
-        let g = wrap::assemble(&mut r, max_plain, 2);
+        let mut g = wrap::assemble(&mut r, max_plain, 2);
+        if v.len() % 6 == 1 {
+            // large literal chunks: the 64 KiB copy loop of the reconstruction iterates many times
+            let n = 400_000 + r.usize_below(1_600_000);
+            let mut b = wrap::junk_clean(&mut r, n);
+            b.extend_from_slice(&g.bytes);
+            g.bytes = b;
+            g.recipe = format!("{} bytes of clean junk + {}", n, g.recipe);
+        }
         let stream = if r.chance(1, 6) { streams::mutate(&mut r, &s.bytes, None).1 } else { s.bytes.clone() };
         let (plain, corr) = match cur::analyze(&stream, false) {
             Out::Ok(a) => (a.plain, a.corr),
